@@ -188,6 +188,10 @@ pub fn standard_workload<V: Visitor>(v: &mut V, ctx: &mut Ctx, tag: &str, scale_
         built_case(v, ctx, "PackageType", &h);
         let h = name_hist(&mut r);
         built_case(v, ctx, "PackageType", &h);
+        let h = hist::stale_hist(&mut r, false);
+        built_case(v, ctx, "String", &h);
+        let h = hist::stale_hist(&mut r, true);
+        built_case(v, ctx, "PackageType", &h);
     }
 }
 
